@@ -621,6 +621,86 @@ func nop(file *ast.File) int {
 	return n
 }
 
+// swap exchanges two adjacent statements that cannot affect each other: both
+// are assignments / short variable declarations of pure expressions (no call,
+// receive, index, slice, dereference, division, function literal, selector
+// through a pointer is not excluded by syntax so selectors are excluded too)
+// to plain identifiers, and neither mentions an identifier the other assigns.
+func swap(file *ast.File) int {
+	n := 0
+	type eff struct{ wID, wF, rID, rF, wRoot map[string]bool }
+	simple := func(st ast.Stmt) (eff, bool) {
+		e := eff{map[string]bool{}, map[string]bool{}, map[string]bool{}, map[string]bool{}, map[string]bool{}}
+		as, isAs := st.(*ast.AssignStmt)
+		if !isAs || (as.Tok != token.ASSIGN && as.Tok != token.DEFINE) || len(as.Lhs) != len(as.Rhs) {
+			return e, false
+		}
+		for _, l := range as.Lhs {
+			switch x := l.(type) {
+			case *ast.Ident:
+				if x.Name == "_" {
+					return e, false
+				}
+				e.wID[x.Name] = true
+			case *ast.SelectorExpr:
+				root, isID := x.X.(*ast.Ident)
+				if !isID {
+					return e, false
+				}
+				e.wF[x.Sel.Name] = true
+				e.rID[root.Name] = true
+				e.wRoot[root.Name] = true
+			default:
+				return e, false
+			}
+		}
+		pure := true
+		for _, r := range as.Rhs {
+			ast.Inspect(r, func(x ast.Node) bool {
+				switch y := x.(type) {
+				case *ast.CallExpr, *ast.FuncLit, *ast.TypeAssertExpr:
+					pure = false
+				case *ast.UnaryExpr:
+					if y.Op == token.ARROW {
+						pure = false
+					}
+				case *ast.SelectorExpr:
+					e.rF[y.Sel.Name] = true
+				case *ast.Ident:
+					e.rID[y.Name] = true
+				}
+				return pure
+			})
+		}
+		return e, pure
+	}
+	meets := func(a, b map[string]bool) bool {
+		for k := range a {
+			if b[k] {
+				return true
+			}
+		}
+		return false
+	}
+	mapLists(file, func(list []ast.Stmt) []ast.Stmt {
+		for i := 0; i+1 < len(list); i++ {
+			a, ok1 := simple(list[i])
+			b, ok2 := simple(list[i+1])
+			if !ok1 || !ok2 {
+				continue
+			}
+			if meets(a.wID, b.rID) || meets(a.wID, b.wID) || meets(b.wID, a.rID) || meets(a.wF, b.rF) || meets(a.wF, b.wF) || meets(b.wF, a.rF) || meets(a.wRoot, b.rID) || meets(a.wRoot, b.wID) || meets(b.wRoot, a.rID) || meets(b.wRoot, a.wID) {
+				continue
+			}
+			list[i], list[i+1] = list[i+1], list[i]
+			n++
+			i++
+		}
+		return list
+	})
+	return n
+}
+
 func main() {
 	dir := os.Args[1]
 	mode := "rename"
@@ -639,7 +719,7 @@ func main() {
 		for i, file := range pk.Syntax {
 			path := pk.CompiledGoFiles[i]
 			changed := false
-			if mode == "flip" || mode == "switch" || mode == "hoist" || mode == "fold" || mode == "incdec" || mode == "condvar" || mode == "unswitch" || mode == "elsestrip" || mode == "elseadd" || mode == "nop" {
+			if mode == "flip" || mode == "switch" || mode == "hoist" || mode == "fold" || mode == "incdec" || mode == "condvar" || mode == "unswitch" || mode == "elsestrip" || mode == "elseadd" || mode == "nop" || mode == "swap" {
 				k := 0
 				switch mode {
 				case "flip":
@@ -660,6 +740,8 @@ func main() {
 					k = elseadd(file)
 				case "nop":
 					k = nop(file)
+				case "swap":
+					k = swap(file)
 				default:
 					k = hoist(file, pk.TypesInfo)
 				}
